@@ -568,11 +568,20 @@ def qualname_of(fn):
 
 def d_consumers(ctx):
     sm = ctx.tree.ast(SM)
-    sites = [n for n in ast.walk(sm) if isinstance(n, ast.Subscript) and isinstance(n.value, ast.Attribute) and n.value.attr == "element_labels" and isinstance(n.ctx, ast.Load)]
+    from ..source import inline_temporaries, enclosing_function
+    sites = []
+    for n in ast.walk(sm):
+        if isinstance(n, ast.Subscript) and isinstance(n.ctx, ast.Load):
+            f_ = enclosing_function(n)
+            if isinstance(n.value, ast.Attribute) and n.value.attr == "element_labels":
+                sites.append(n)
+            elif isinstance(n.value, ast.Name) and f_ is not None and inline_temporaries(n.value, f_, n.lineno).endswith(".element_labels"):
+                sites.append(n)     # a local alias of some flow config's label table
     ctx.floor("C12.d.consumers", SM, "element_labels[...] lookups", len(sites), 6)
     PRODUCED = ("label", "catch_pattern_failure_label", "labels")
     for s in sites:
-        key = src(s.slice)
+        f_ = enclosing_function(s)
+        key = inline_temporaries(s.slice, f_, s.lineno) if f_ is not None else src(s.slice)
         guarded = False
         p = getattr(s, "_parent", None)
         while p is not None and not isinstance(p, (ast.FunctionDef, ast.AsyncFunctionDef)):
